@@ -33,7 +33,9 @@ STUB = {"sum": "sum", "mean": "mean", "min": "amin", "max": "amax", "nansum": "n
         "nanmax": "nanmax"}
 
 _CASES = [{"label": "%s,z_%s" % (op, z), "op": op, "zres": z} for op in OPS for z in ("given", "derived")]
-_CASES_Q = [c for c in _CASES if c["zres"] == "given" or c["op"] in ("sum", "nanmean")]
+_CASES += [{"label": "%s,z_%s,dx_other_unit" % (op, z), "op": op, "zres": z, "window": "other_unit"} for op, z in (("sum", "given"), ("nansum", "derived"),
+                                                                                                                          ("mean", "given"))]
+_CASES_Q = [c for c in _CASES if c["zres"] == "given" or c["op"] in ("sum", "nanmean", "nansum")]
 
 
 def run_thick(case, direction="z", window="same_unit", layers=("scalar",), layer_kwargs=None):
@@ -45,14 +47,15 @@ def run_thick(case, direction="z", window="same_unit", layers=("scalar",), layer
 @unit("C11", "map.thick", targets=[K.MAP + ":map"], uses=["evaluate_on_grid@map"],
       cases=_CASES if os.environ.get("PYVC_TIER") == "thorough" else _CASES_Q, replay=NM.replay_c11, max_paths=64)
 def map_thick(case):
-    run, zres = run_thick(case)
+    run, zres = run_thick(case, window=case.get("window", "same_unit"))
     if run.raised is not None:
         core.cover("raised_no_cells")
         return
     core.cover("mapped")
     kc = run.kc
     op = case["op"]
-    wx, dz = run.win.magnitude, run.dz.magnitude
+    # lengths below are in the position unit (the window and dz may be given in another length unit)
+    wx, dz = run.to_pos_unit(run.win.magnitude), run.to_pos_unit(run.dz.magnitude)
     core.assume(SV.lift(kc.nz) >= 1)  # dz of at least one pixel (quantifier of the statement)
     xsp, ysp = wx / run.rx, wx / run.ry
     if zres is not None:
@@ -72,7 +75,7 @@ def map_thick(case):
     prove("depth_sample.formula", fz)
     inz = c03.abs_le(zk, dz / 2)
     core.lemma("depth_sample.inside_slab", [fz, k >= 0, k < kc.nz, dz > 0, SV.lift(kc.nz) >= 1], inz)
-    q = run.sample(px, py, zk)
+    q = run.sample(run.to_pos_unit(px), run.to_pos_unit(py), zk)
     h = kc.last(k, j, i)
     m_hit = run.sigma(h)
     prove("sample.hit_cell_is_loaded", core.implies(h >= 0, core.conj(m_hit >= 0, m_hit < run.n)))
